@@ -30,14 +30,14 @@ RULE = ("programs from the typed generator ('planner_state' and default profiles
         "non-trivial = the pickled plan contains at least one non-source expression; distinct by (program, form)")
 ASSUMPTIONS = ["cloudpickle-free: plain pickle as used by dask for collections", "receiver has PYTHONPATH to the same user modules"]
 CONFIG = {
-    "quick": {"budget_s": 55, "programs": 220, "case_timeout_s": 120},
+    "quick": {"budget_s": 50, "programs": 110, "case_timeout_s": 120},
     "thorough": {"budget_s": 600, "programs": 3000, "case_timeout_s": 240},
 }
 FORMS = ["logical", "simplified", "optimized", "lowered"]
 
 
 def floors(tier):
-    return {"cases": 100, "pickles_received": 250, "nontrivial": 200, "form_optimized": 60, "form_lowered": 60, "plans_with_setindex_or_sort": 20}
+    return {"cases": 40, "pickles_received": 90, "nontrivial": 80, "form_optimized": 20, "form_lowered": 20, "plans_with_setindex_or_sort": 6}
 
 
 def cases(tier, seed):
